@@ -123,6 +123,7 @@ type Cluster struct {
 	// write takes to reach the disk (a slow disk; the call sleeps that long before anything else happens).
 	SaveDelay func(n *Node, group uuid.UUID) time.Duration
 	OnPoint   func(point string, args ...interface{})
+	Rewraps   []string // log stores wrapped a second time for the same (node, group, incarnation)
 }
 
 var (
@@ -196,6 +197,19 @@ func installHooks() {
 			if n == nil {
 				return w
 			}
+			c.mu.Lock()
+			if old := c.wals[key(nodeId, groupId, n.Incarnation)]; old != nil {
+				// a second raft group object for the same group in one incarnation (a replica unloaded and
+				// loaded again, or a load that was refused because the group is already running)
+				c.Rewraps = append(c.Rewraps, fmt.Sprintf("node %d group %s incarnation %d", nodeId, groupId, n.Incarnation))
+				if old.Inner() == w {
+					// the same log store object: one store, one recorder (its view follows every write and
+					// DeleteGroup made through it)
+					c.mu.Unlock()
+					return old
+				}
+			}
+			c.mu.Unlock()
 			rw := newRecWAL(c, n, groupId, w)
 			c.mu.Lock()
 			c.wals[key(nodeId, groupId, n.Incarnation)] = rw
